@@ -14,6 +14,20 @@ from .arr import SArr, sym_array, slen, as_index
 from .seqs import SortedIdx
 
 
+class IdxList(list):
+    """np.where(mask)[0] for a concrete-length mask: a list of python ints with numpy's `+ k` broadcasting"""
+
+    def __add__(self, o):
+        if isinstance(o, (int, SNum)):
+            return IdxList(x + o for x in self)
+        return list.__add__(self, o)
+
+    def __radd__(self, o):
+        if isinstance(o, (int, SNum)):
+            return IdxList(x + o for x in self)
+        return list(o) + list(self)
+
+
 class _NP:
     inf = float("inf")
     pi = math.pi
@@ -56,19 +70,18 @@ class _NP:
     asarray = array
 
     def zeros(self, shape, dtype=float):
-        return self.full(shape, 0.0 if dtype in (float, None) else (0 if dtype is int else (False if dtype is bool else 0j)),
-                         dtype)
+        dt = _dt(dtype)
+        return self.full(shape, {"real": 0.0, "int": 0, "bool": False, "cplx": 0j}[dt], dtype)
 
     def ones(self, shape, dtype=float):
-        return self.full(shape, 1.0 if dtype in (float, None) else (1 if dtype is int else (True if dtype is bool else 1 + 0j)),
-                         dtype)
+        dt = _dt(dtype)
+        return self.full(shape, {"real": 1.0, "int": 1, "bool": True, "cplx": 1 + 0j}[dt], dtype)
 
     def full(self, shape, val, dtype=None):
         if not isinstance(shape, (tuple, list)):
             shape = (shape,)
         shape = tuple(as_index(s) for s in shape)
-        dt = {float: "real", int: "int", bool: "bool", complex: "cplx", None: "real"}.get(dtype, "real")
-        return SArr(shape, lambda idx: val, dt)
+        return SArr(shape, lambda idx: val, _dt(dtype))
 
     def zeros_like(self, a):
         return SArr(a.shape, lambda idx: 0.0, a.dtype)
@@ -93,6 +106,10 @@ class _NP:
                          a.dtype if isinstance(a, SArr) else "real")
             return ite(c, a, b)
         if isinstance(c, SArr) and c.ndim == 1:
+            n = conc(c.shape[0])
+            if isinstance(n, int):
+                # concrete length: decide every element on this path (forks), return the index list as numpy would
+                return (IdxList(i for i in range(n) if bool(c.get((i,)))),)
             return (SortedIdx.from_mask(c),)
         raise Undecided("np.where on %r" % (c,))
 
@@ -157,6 +174,19 @@ class _NP:
 
     def __getattr__(self, name):
         raise Undecided("numpy.%s is not modelled" % name)
+
+
+def _dt(dtype):
+    from . import runtime
+    if dtype in (float, None, runtime.m_float, _np.float64):
+        return "real"
+    if dtype in (int, runtime.m_int, _np.int64):
+        return "int"
+    if dtype in (bool, runtime.m_bool, _np.bool_):
+        return "bool"
+    if dtype in (complex, _np.complex128):
+        return "cplx"
+    raise Undecided("dtype %r" % (dtype,))
 
 
 def _pick(rows, i):
